@@ -526,26 +526,40 @@ Definition accepted_on (key v : string) (cfg : options * row) : bool :=
   match dispatch (set_assoc key (OStr v) (fst cfg)) (snd cfg) with DOk _ => true | DRej _ => false end.
 Definition value_ok (key v : string) (acts : list dact) : bool :=
   existsb is_exit acts || existsb (accepted_on key v) witness_configs.
-Definition all_values_ok : bool :=
+Definition values_ok_on (steps : list dstep) : bool :=
   forallb (fun st => match st with
                      | DChain key brs => forallb (fun br => value_ok key (fst br) (snd br)) brs
                      | _ => true
-                     end) dispatch_steps.
-Lemma all_values_ok_true : all_values_ok = true.
+                     end) steps.
+Lemma all_values_ok_true : values_ok_on dispatch_steps = true.
 Proof. vm_compute. reflexivity. Qed.
 
-Lemma values_accepted : forall key brs v acts, In (DChain key brs) dispatch_steps -> In (v, acts) brs ->
+Lemma values_ok_on_spec : forall steps, values_ok_on steps = true ->
+  forall key brs v acts, In (DChain key brs) steps -> In (v, acts) brs -> value_ok key v acts = true.
+Proof.
+  intros steps H key brs v acts Hs Hb. unfold values_ok_on in H.
+  rewrite forallb_forall in H. specialize (H _ Hs). cbv beta iota in H.
+  rewrite forallb_forall in H. exact (H _ Hb).
+Qed.
+
+Lemma value_ok_spec : forall key v acts, value_ok key v acts = true ->
   In DExit acts \/
   exists cfg s, In cfg witness_configs /\ dispatch (set_assoc key (OStr v) (fst cfg)) (snd cfg) = DOk s.
 Proof.
-  intros key brs v acts Hs Hb. pose proof all_values_ok_true as H. unfold all_values_ok in H.
-  rewrite forallb_forall in H. specialize (H _ Hs). cbv beta iota in H.
-  rewrite forallb_forall in H. specialize (H _ Hb). cbn [fst snd] in H. unfold value_ok in H.
+  intros key v acts H. unfold value_ok in H.
   apply orb_true_iff in H. destruct H as [H|H].
   - left. apply existsb_exists in H. destruct H as (a & Ha & He). destruct a; try discriminate. exact Ha.
   - right. apply existsb_exists in H. destruct H as (cfg & Hc & Ha). unfold accepted_on in Ha.
     destruct (dispatch (set_assoc key (OStr v) (fst cfg)) (snd cfg)) as [s|] eqn:E; [|discriminate].
     exists cfg, s; split; [exact Hc|exact E].
+Qed.
+
+Lemma values_accepted : forall key brs v acts, In (DChain key brs) dispatch_steps -> In (v, acts) brs ->
+  In DExit acts \/
+  exists cfg s, In cfg witness_configs /\ dispatch (set_assoc key (OStr v) (fst cfg)) (snd cfg) = DOk s.
+Proof.
+  intros key brs v acts Hs Hb. apply value_ok_spec.
+  exact (values_ok_on_spec dispatch_steps all_values_ok_true key brs v acts Hs Hb).
 Qed.
 
 (* ------------------------------------------------------------------ what a literal setter writes *)
